@@ -17,13 +17,17 @@ from isla.existential_helpers import insert_tree  # noqa: E402
 from isla.helpers import canonical  # noqa: E402
 import h_c16  # noqa: E402
 
-GI = int(os.environ.get("VERIF_G", "0"))
+GI = int(os.environ.get("VERIF_G13", "0"))
 L = int(os.environ.get("VERIF_L", "4"))
 GRAMMARS = [
     {"<start>": ["<stmt>"], "<stmt>": ["<assgn> ; <stmt>", "<assgn>"], "<assgn>": ["<var> := <rhs>"], "<rhs>": ["<var>", "<digit>"],
      "<var>": ["a", "b"], "<digit>": ["0", "1"]},
     {"<start>": ["<tree>"], "<tree>": ["<<id>><inner></<id>>", "<<id>/>"], "<inner>": ["<tree><inner>", "<tree>", "<text>"],
      "<text>": ["x"], "<id>": ["a", "b"]},
+    # left recursion / alternatives of different length with the shared nonterminal at different positions
+    {"<start>": ["<expr>"], "<expr>": ["<expr>+<term>", "<term>"], "<term>": ["(<expr>)", "<digit>"], "<digit>": ["1", "2"]},
+    {"<start>": ["<cfg>"], "<cfg>": ["<setting><cfg>", "<setting>"], "<setting>": ["<name>=<value>;", "<value> <fallback>"],
+     "<fallback>": ["<value>", "none"], "<name>": ["k"], "<value>": ["1", "v"]},
 ]
 G = GRAMMARS[GI]
 CAN = canonical(G)
@@ -60,11 +64,15 @@ def extends(r, new) -> bool:
     return all(extends(a, b) for a, b in zip(r.children, new.children))
 
 
-def _insert(ch) -> bool:
+def _insert(ch, ctx_closed=False) -> bool:
+    """ctx_closed=False: every case except (context addition enabled AND inserted tree closed);
+       ctx_closed=True : exactly those cases (own obligation: known finding on the pinned tree)"""
     host_spec = vlib.decode_tree(G, "<start>", ch, allow_open=True, close_rest=False)
     n_calls = 0
     for name, mk in INS:
         for methods in range(1, 8):
+            if ((methods & 4) != 0 and name.endswith(" closed")) != ctx_closed:
+                continue
             host = vlib.mk_tree(host_spec)
             new = mk()
             what = "insert_tree(%s into %r, methods=%s)" % (name, str(host), bin(methods))
@@ -108,3 +116,11 @@ def h_insert(ch: List[int]) -> bool:
     post: _
     """
     return vlib.untraced(_insert, [int(c) for c in vlib.realize(ch)])
+
+
+def h_insert_ctx_closed(ch: List[int]) -> bool:
+    """
+    pre: _ok(ch)
+    post: _
+    """
+    return vlib.untraced(_insert, [int(c) for c in vlib.realize(ch)], True)
